@@ -186,7 +186,12 @@ def server_main():
     real_connect = sqlite3.connect
 
     def connect(*a, **kw):
+        kw.setdefault("timeout", 1.0)       # artap's default busy timeout is 5 s; nothing legitimately waits that long here
         return Conn(real_connect(*a, **kw))
+
+    # artap prints (e.g. "database is locked") on stdout: keep the protocol on its own descriptor
+    proto = os.fdopen(os.dup(1), "w")
+    os.dup2(os.open(os.devnull, os.O_WRONLY), 1)
 
     sqlite3.connect = connect          # before artap is imported
     work = os.environ["C11_WORK"]
@@ -267,13 +272,16 @@ def server_main():
         problem.data_store = store
         real_ind, real_all = store.sync_individual, store.sync_all
 
+        # which object is handed to the store: one created by this process, or one rebuilt from a row at start-up
         def sync_individual(individual):
+            emit({"e": "plan", "objs": [[individual.id, isinstance(individual.state, str)]]})
             r = real_ind(individual)
             emit({"e": "ret", "i": individual.id})
             return r
 
         def sync_all():
             ids = [i.id for i in problem.individuals]
+            emit({"e": "plan", "objs": [[i.id, isinstance(i.state, str)] for i in problem.individuals]})
             r = real_all()
             for i in ids:
                 emit({"e": "ret", "i": i})
@@ -342,6 +350,10 @@ def server_main():
                     except ProcessLookupError:
                         pass
 
+        def watchdog():
+            time.sleep(8.0)                 # a writer that hangs (e.g. retrying for ever on a locked file) is stopped
+            kill()
+        threading.Thread(target=watchdog, daemon=True).start()
         if kind == "sigkill":
             def killer():
                 armed.wait()            # the property starts when the store has been created
@@ -395,9 +407,9 @@ def server_main():
         evs, status, lived = in_child(writer, req, req["crash"])
         evs = pre_evs + evs
         rd, _, _ = in_child(reader, req)
-        sys.stdout.write(json.dumps({"events": evs, "status": status, "read": rd[0] if rd else {"error": "reader died"},
-                                     "writer_s": lived}) + "\n")
-        sys.stdout.flush()
+        proto.write(json.dumps({"events": evs, "status": status, "read": rd[0] if rd else {"error": "reader died"},
+                                "writer_s": lived}) + "\n")
+        proto.flush()
 
 
 # ======================================================================================================
@@ -461,7 +473,7 @@ def run(ctx):
         evs = res["events"]
         m = 1 if sc["alg"] == "sweep1" else 2
         designs, obj, sg, trace, started = [], [], [], [], {}
-        begun, done_commit, returned = [], set(), []
+        begun, returned, plan = [], [], {}
         for e in evs:
             k = e.get("e")
             if k == "start":
@@ -470,7 +482,7 @@ def run(ctx):
                 trace.append("SStart %s" % zl(e["i"]))
             elif k == "reopen":
                 trace.append("SReopen")
-                begun, done_commit = [], set()
+                begun = []
             elif k == "costs":
                 obj.append((started[e["i"]], e["c"]))
                 trace.append("SCosts %s" % zl(e["i"]))
@@ -480,12 +492,17 @@ def run(ctx):
                 trace.append("SDone %s" % zl(e["i"]))          # see TRUSTED: placed where job.py has it
             elif k == "copy":
                 trace.append("SCopy %s %s" % (zl(e["j"]), zl(e["i"])))
+            elif k == "plan":
+                for i, old in e["objs"]:
+                    plan.setdefault(i, []).append(old)
             elif k == "exec":
-                trace.append("SExec %d %s" % (e["c"], zl(e["i"])))
+                old = plan.get(e["i"], [False]).pop(0) if plan.get(e["i"]) else False
+                trace.append("%s %d %s" % ("SExecOld" if old else "SExec", e["c"], zl(e["i"])))
             elif k == "commit_begin":
                 begun.append(e["c"])
             elif k == "commit":
-                done_commit.add(e["c"])
+                if e["c"] in begun:
+                    begun.remove(e["c"])
                 trace.append("SCommit %d" % e["c"])
             elif k == "ret":
                 returned.append(e["i"])
@@ -497,7 +514,7 @@ def run(ctx):
                                                    "of the C11 theorems is not met" % e["mode"], "correspondence": "journal mode", "case": sc})
             elif k == "exception":
                 ctx.mismatches.append({"what": "writer raised %s" % e["what"], "correspondence": "writer", "case": {"scenario": sc, "crash": crash}})
-        conns = [c for c in begun if c not in done_commit]
+        conns = sorted(set(begun))
         rd = res["read"]
         c = ("{| q_designs := %s; q_objective := %s; q_signed := %s; q_trace := %s; q_conns := %s |}" % (
             ll(designs, lambda d: pl(zl(d[0]), enc_list(d[1]))), ll(obj, lambda d: pl(enc_list(d[0]), enc_list(d[1]))),
@@ -597,8 +614,7 @@ def run(ctx):
             res = fut.result()
             evs = res["events"]
             if not any(e.get("e") == "finished" for e in evs):
-                ctx.mismatches.append({"what": "reference run did not finish", "correspondence": "writer", "case": sc, "events": evs[-5:]})
-                continue
+                ctx.mismatches.append({"what": "reference run (no crash) did not finish", "correspondence": "writer", "case": sc, "events": evs[-5:]})
             if "pre" in sc:
                 evs = evs[max(j for j, e in enumerate(evs) if e.get("e") == "reopen") + 1:]      # crash points of the second session
             elif sc["procs"] == 1:
